@@ -106,13 +106,20 @@ async def abstract_coercer(
         result,
     )
 
+    result = await runtime_type.pre_output_coercion_directives(
+        result,
+        execution_context.context,
+        info,
+        context_coercer=execution_context.context,
+    )
+
+    # As for an object reached directly, a value nulled by the output hooks of
+    # its runtime type is null: there is nothing to select fields from
+    if result is None:
+        return None
+
     return await complete_object_value(
-        await runtime_type.pre_output_coercion_directives(
-            result,
-            execution_context.context,
-            info,
-            context_coercer=execution_context.context,
-        ),
+        result,
         info,
         execution_context,
         field_nodes,
